@@ -10,7 +10,7 @@ var nameClasses = map[string][]string{
 	"bullets": {"- x", "* y", "a-b", "+", "-", "*", "#tag", "x # y", "a - b * c + d", "--", "-x"},
 	"blanks":  {" lead", "trail ", "in  side", "\ttab", " ", "a\tb", "  two"},
 	"unicode": {"日本語", "é", "😀", "a\u00a0b", "\u3000x", "x\u2028y", "\u0085n", "ｆｕｌｌ", "\u00a0"},
-	"quotes":  {`"q"`, "a: b", `back\slash`, "x\x01y", "'s'", "{j}", "[l]", "null", "true", "1.5", "k=v", "a,b"},
+	"quotes":  {`"q"`, "a: b", `back\slash`, "x\x01y", "'s'", "{j}", "[l]", "null", "true", "1.5", "k=v", "a,b", "<a>&b", "x<y", "R&D"},
 	"path":    {"..", ".", "a/b", "/abs", "x/", "...", ".hidden", "a..b"},
 }
 
